@@ -45,6 +45,11 @@ def cases(tier, seed):
     for i, (cat, name) in enumerate(shaped if tier == 'thorough' else shaped[:3]):
         t = {c_: [n for n in pools[c_] if not gen.is_terrapin_shape(n)][i] for c_ in pools}
         cs.append({'kind': 'targets', 'targets': t, 'unknown_cat': cat, 'unknown_name': name, 'seed': rng.randrange(1 << 30)})
+    # a Terrapin-sensitive cipher without the strict-kex marker anywhere, and beside it - in every other context - an unknown name that merely looks like the marker: an unrelated neighbour, not part of the documented context
+    for i, la in enumerate(['kex-strict-%-v01@openssh.com', 'kex-strict-%-v0@openssh.com', 'kex-strict-%-v00@openssh.com.', 'KEX-STRICT-%-V00@openssh.com'] if tier == 'thorough' else ['kex-strict-%-v01@openssh.com', 'kex-strict-%-v' + '%02d' % (2 + seed % 90) + '@openssh.com']):
+        t = {c_: [n for n in pools[c_] if not gen.is_terrapin_shape(n)][i + 5] for c_ in pools}
+        t['enc'] = 'chacha20-poly1305@openssh.com'
+        cs.append({'kind': 'targets', 'targets': t, 'lookalike': la, 'seed': rng.randrange(1 << 30)})
     # the same names advertised in several categories at once: the rating goes by (category, name), never by the name alone
     for i in range(4 if tier == 'quick' else 24):
         cs.append({'kind': 'crosscat', 'seed': rng.randrange(1 << 30)})
@@ -121,7 +126,7 @@ def run_case(c):
     unknown_cat = c.get('unknown_cat')
     if unknown_cat:
         targets[unknown_cat] = c.get('unknown_name') or audit.unknown_name(rng)
-    pin_marker = any(gen.is_terrapin_shape(targets[cat]) for cat in ('enc', 'mac')) and not c.get('unknown_name')
+    pin_marker = any(gen.is_terrapin_shape(targets[cat]) for cat in ('enc', 'mac')) and not c.get('unknown_name') and not c.get('lookalike')
     exposing = {'enc': ['hmac-sha2-256-etm@openssh.com'], 'mac': ['aes128-cbc']} if c.get('unknown_name') else None
     neigh = {cat: [n for n in names[cat] if not n.endswith('-*') and n != targets[cat] and not gen.is_terrapin_shape(n) and n not in (MARK_S, MARK_C)] for cat in ('kex', 'key', 'enc', 'mac')}
     obs = {cat: [] for cat in targets}   # (context label, canon notes | 'unknown' marker)
@@ -142,6 +147,11 @@ def run_case(c):
             else:
                 lists['enc'] = lists['enc'] + exposing['mac']
         marker = pin_marker or (rng.random() < .5 if not exposing else contexts.index((pos, role, fmt)) % 2 == 1)
+        if c.get('lookalike'):
+            marker = False
+            if contexts.index((pos, role, fmt)) % 2 == 1:
+                lists['kex'] = lists['kex'] + [c['lookalike'].replace('%', 'c' if role == 'client' else 's', 1)]
+                counters['marker_lookalike_neighbours'] = counters.get('marker_lookalike_neighbours', 0) + 1
         if marker:
             lists['kex'] = lists['kex'] + [MARK_C if role == 'client' else MARK_S]
         script = {'banner': 'SSH-2.0-OpenSSH_9.%d' % rng.randint(0, 9), 'kex': audit.sym_kex(lists['kex'], lists['key'], lists['enc'], lists['mac']), 'hostkeys': {}, 'hostkey_default': None, 'gex': None}
@@ -188,7 +198,9 @@ def run_case(c):
     unknown_section = r.out.split('# unknown algorithms')[1].split('#')[0] if '# unknown algorithms' in r.out else ''
     for cat in targets:
         ent = [a for a in rep.algs[cat] if a.name == targets[cat]]
-        if ent:
+        if ent and c.get('lookalike') and cat == 'enc':
+            pass   # --lookup has no peer and so no Terrapin context; the audits here deliberately run without the marker
+        elif ent:
             obs[cat].append(('lookup', canon(ent[0].notes)))
             counters['observations'] += 1
         elif targets[cat] in unknown_section.split():
